@@ -151,7 +151,18 @@ def twins(ctx, n_ham, reps):
                 T = float(rng.uniform(0.5, 3.0)) * (8.0 if big else 2.0 if (stiff and mode != "fixed") else 1.0)
                 if mode == "fixed":
                     integ = RungeKutta(order=order)
-                    grid = np.linspace(0, T, int(rng.choice([50, 200, 600])))
+                    ng = int(rng.choice([50, 200, 600]))
+                    if rep % 2 == 0:
+                        grid = np.linspace(0, T, ng)
+                    else:                  # strictly increasing, non-uniform nodes (graded or jittered): every step has its own length
+                        u = np.linspace(0, 1, ng)
+                        if rng.random() < 0.5:
+                            grid = T * u ** float(rng.uniform(1.2, 1.8))
+                        else:
+                            jit = rng.uniform(-0.3, 0.3, ng) / (ng - 1)
+                            jit[0] = jit[-1] = 0.0
+                            grid = T * np.sort(u + jit)
+                        ctx.count("T:fixed-step twins on a non-uniform grid")
                     tol = 1e-12
                 elif mode == "adaptive_locked":
                     # loose tolerance + small max_step: both twins take the identical step sequence, only kernel arithmetic differs
@@ -183,7 +194,11 @@ def twins(ctx, n_ham, reps):
                         if rep > 0 and direction != [-1, 0, 1][(rep + ih) % 3]:
                             continue
                         cfg = EventConfig(direction=direction, terminal=True)
-                        eo = EventOptions(xtol=1e-12, gtol=1e-12)
+                        # location tolerances: equal, or many decades apart in either order (both twins must apply them the same way)
+                        # (only where the twins take identical steps: in free mode a 1e-10 difference between the twins legitimately ends
+                        # the bisection one iteration apart, i.e. up to gtol/slope apart in time)
+                        xt, gt = [(1e-12, 1e-12), (1e-12, 1e-5), (1e-5, 1e-13)][int(rng.integers(3)) if mode != "adaptive_free" else 0]
+                        eo = EventOptions(xtol=xt, gtol=gt)
                         span = np.array([0.0, T]) if mode != "fixed" else grid
                         try:
                             ea = integ.integrate(hs, y0.copy(), span.copy(), event_fn=g, event_cfg=cfg, event_options=eo)
@@ -208,7 +223,8 @@ def twins(ctx, n_ham, reps):
                             dy_ = np.abs(ya - yb).max()
                             ctx.stat(f"twin_event_time_diff[{tag}]", dt_)
                             ctx.check(dt_ <= etol * (1 + T) and dy_ <= etol * (1 + np.abs(yb).max()), f"E:same event time and state[{tag}]",
-                                      lambda: {**wit(), "event": ename, "direction": direction, "t_ham": ta, "t_gen": tb, "dy": dy_, "tol": etol})
+                                      lambda: {**wit(), "event": ename, "direction": direction, "t_ham": ta, "t_gen": tb, "dy": dy_, "tol": etol,
+                                               "xtol": xt, "gtol": gt})
         # centre-manifold copy of the fixed-step stepping vs the integrator class on the same input
         from hiten.algorithms.poincare.centermanifold.backend import _get_rk_coefficients, _integrate_rk_ham
         for order in (4, 6, 8):
